@@ -184,7 +184,7 @@ def monitor (sc : Scn) (out : String) : String := Id.run do
     let chg := match op with | some (.edit k) => k != tmpl | _ => false
     if chg then epochCreates := 0
     match stepOK { template := tmpl, paused := paused, epochCreates := epochCreates } pre op post with
-    | some why => return s!"bad {why} step={i} op={j.op}"
+    | some why => return s!"bad {why} step={i} op={j.op} template={tmpl} cc-before={pre.cc} observed: {st}"
     | none => pure ()
     epochCreates := epochCreates + (post.reqs.filter (fun r => r.outcome == .ok || r.outcome == .lost)).length
     match op with
